@@ -94,6 +94,14 @@ def Trans.setInactive (t : Trans) (idx : List Nat) : Except Err Trans :=
   | none => .error .notTriggered
   | some a => .ok { t with active := some (a.filter (fun i => !idx.contains i)) }
 
+/-- a history of trigger calls on one transition, oldest first: `(true, S)` = `set_active(S)`,
+`(false, S)` = `set_inactive(S)`. The active index is a function of this history and of nothing else – in
+particular not of the indexes `probability` was evaluated on in between (the code keeps no such memory). -/
+def activeAfter (a : List Nat) : List (Bool × List Nat) → List Nat
+  | [] => a
+  | (true, s) :: ops => activeAfter (a ++ s.filter (fun i => !a.contains i)) ops
+  | (false, s) :: ops => activeAfter (a.filter (fun i => !s.contains i)) ops
+
 /-! ### `_choice`: inverse CDF -/
 
 /-- `np.cumsum` (running total starting from `a`) -/
